@@ -38,8 +38,8 @@ fn active(f: &NetworkFilter, tag_a_enabled: bool) -> bool {
 
 /// two rules the grouping key allows to fuse (same mask — `format!("{:b}:{:?}", mask, is_complete_regex)` is
 /// not executed), real select + fusion + per-rule matcher: the fused rule is active-and-matching iff some
-/// member is.
-fn fuse_kernel<const PN: usize, const UN: usize>() {
+/// member is. `e1`/`e2`: that member has an empty pattern (matches every URL).
+fn fuse_kernel<const PN: usize, const UN: usize>(e1: bool, e2: bool) {
     let mut dr = crate::verif_shim::Draw::new();
     let b1: [u8; PN] = dr.bytes::<PN>();
     let l1: usize = dr.usize();
@@ -50,7 +50,9 @@ fn fuse_kernel<const PN: usize, const UN: usize>() {
     let p1 = sym_ascii(&b1, l1);
     let p2 = sym_ascii(&b2, l2);
     let u = sym_ascii(&ub, ul);
-    let (e1, e2): (bool, bool) = (dr.bool(), dr.bool());
+    // which member has an empty pattern is fixed per harness (a symbolic choice makes every arm of fusion's
+    // pattern merge symbolic: out of memory at 12 GB); the two draws keep the input layout uniform
+    let (_e1, _e2): (bool, bool) = (dr.bool(), dr.bool());
     kani::assume(l1 >= 1 && l2 >= 1);
     let mask = NetworkFilterMask::from_bits_retain(dr.u32() & !KIND);
     let (t1, t2): (bool, bool) = (dr.bool(), dr.bool());
@@ -77,24 +79,6 @@ fn fuse_kernel<const PN: usize, const UN: usize>() {
     let want = (m1 && active(&f1, tag_on)) || (m2 && active(&f2, tag_on));
     let g = SimplePatternGroup {};
     let (s1, s2) = (g.select(&f1), g.select(&f2));
-    // select must refuse rules whose extra fields the fused rule cannot represent
-    {
-        let mut fd = mk(mask, p1, e1, false, 3);
-        fd.opt_domains = Some(vec![7]);
-        assert!(!g.select(&fd), "P:fuse.select_refuses_domain_rules");
-        let mut fn_ = mk(mask, p1, e1, false, 4);
-        fn_.opt_not_domains = Some(vec![7]);
-        assert!(!g.select(&fn_), "P:fuse.select_refuses_not_domain_rules");
-        let fr = mk(mask | NetworkFilterMask::IS_REDIRECT, p1, e1, false, 5);
-        let fc = mk(mask | NetworkFilterMask::IS_CSP, p1, e1, false, 6);
-        let fh = mk(mask | NetworkFilterMask::IS_HOSTNAME_ANCHOR, p1, e1, false, 7);
-        assert!(!g.select(&fr) && !g.select(&fc) && !g.select(&fh), "P:fuse.select_refuses_redirect_csp_hostanchor");
-        core::mem::forget(fd);
-        core::mem::forget(fn_);
-        core::mem::forget(fr);
-        core::mem::forget(fc);
-        core::mem::forget(fh);
-    }
     if s1 && s2 {
         let fs = [f1, f2];
         let fused = g.fusion(&fs);
@@ -112,21 +96,45 @@ fn fuse_kernel<const PN: usize, const UN: usize>() {
     core::mem::forget(req);
     core::mem::forget(rm);
 }
+
+/// eligibility: select refuses every rule whose extra fields a fused rule cannot represent
 #[kani::proof]
-#[kani::unwind(6)]
-#[kani::stub(regex::Regex::new, crate::verif_shim::stub_regex_new)]
-#[kani::stub(regex::Regex::is_match, crate::verif_shim::stub_regex_is_match)]
-#[kani::stub(crate::regex_manager::RegexManager::matches, crate::verif_shim::stub_rm_matches)]
-#[kani::stub(std::time::Instant::now, crate::verif_shim::stub_instant_now)]
-fn c05_fuse() {
-    fuse_kernel::<2, 3>();
+#[kani::unwind(4)]
+fn c05_select() {
+    let mut dr = crate::verif_shim::Draw::new();
+    let m: u32 = dr.u32();
+    let mask = NetworkFilterMask::from_bits_retain(m);
+    let (has_d, has_n, has_tag): (bool, bool, bool) = (dr.bool(), dr.bool(), dr.bool());
+    let mut f = mk(mask, "a", false, has_tag, 1);
+    if has_d {
+        f.opt_domains = Some(vec![7]);
+    }
+    if has_n {
+        f.opt_not_domains = Some(vec![9]);
+    }
+    let g = SimplePatternGroup {};
+    let sel = g.select(&f);
+    let must_refuse = has_d || has_n || has_tag || mask.contains(NetworkFilterMask::IS_HOSTNAME_ANCHOR) || mask.contains(NetworkFilterMask::IS_REDIRECT) || mask.contains(NetworkFilterMask::IS_CSP);
+    assert!(!(sel && must_refuse), "P:select.refuses_domain_tag_redirect_csp_hostanchor");
+    kani::cover!(sel, "W:select.plain_rule_selected");
+    kani::cover!(!sel && has_tag && !has_d && !has_n, "W:select.tagged_refused");
+    core::mem::forget(f);
 }
-#[kani::proof]
-#[kani::unwind(7)]
-#[kani::stub(regex::Regex::new, crate::verif_shim::stub_regex_new)]
-#[kani::stub(regex::Regex::is_match, crate::verif_shim::stub_regex_is_match)]
-#[kani::stub(crate::regex_manager::RegexManager::matches, crate::verif_shim::stub_rm_matches)]
-#[kani::stub(std::time::Instant::now, crate::verif_shim::stub_instant_now)]
-fn c05_fuse_t() {
-    fuse_kernel::<2, 4>();
+
+macro_rules! fuse_harness {
+    ($name:ident, $unw:literal, $p:literal, $u:literal, $e1:literal, $e2:literal) => {
+        #[kani::proof]
+        #[kani::unwind($unw)]
+        #[kani::stub(regex::Regex::new, crate::verif_shim::stub_regex_new)]
+        #[kani::stub(regex::Regex::is_match, crate::verif_shim::stub_regex_is_match)]
+        #[kani::stub(crate::regex_manager::RegexManager::matches, crate::verif_shim::stub_rm_matches)]
+        #[kani::stub(std::time::Instant::now, crate::verif_shim::stub_instant_now)]
+        fn $name() {
+            fuse_kernel::<$p, $u>($e1, $e2);
+        }
+    };
 }
+fuse_harness!(c05_fuse, 6, 2, 3, false, false);
+fuse_harness!(c05_fuse_e1, 6, 2, 3, true, false);
+fuse_harness!(c05_fuse_e2, 6, 2, 3, false, true);
+fuse_harness!(c05_fuse_t, 7, 2, 4, false, false);
